@@ -8,6 +8,7 @@ import (
 	"fmt"
 	"os"
 	"path/filepath"
+	"runtime"
 	rtdebug "runtime/debug"
 	"strings"
 	"sync"
@@ -144,19 +145,19 @@ func c11Script(r *vfRand, n int, many bool) []c11Step {
 		case x < 60:
 			out = append(out, c11Step{op: "close-stale", arg: r.Intn(1 << 20)})
 		case x < 66:
-			out = append(out, c11Step{op: "close-bogus", arg: r.Intn(5)})
+			out = append(out, c11Step{op: "close-bogus", arg: r.Intn(len(c11Bogus))})
 		case x < 78:
 			out = append(out, c11Step{op: "use-live", arg: r.Intn(1 << 20)})
 		case x < 92:
 			out = append(out, c11Step{op: "use-stale", arg: r.Intn(1 << 20), pf: uint32(r.Intn(7))})
 		default:
-			out = append(out, c11Step{op: "use-bogus", arg: r.Intn(5), pf: uint32(r.Intn(7))})
+			out = append(out, c11Step{op: "use-bogus", arg: r.Intn(len(c11Bogus)), pf: uint32(r.Intn(7))})
 		}
 	}
 	return out
 }
 
-var c11Bogus = []string{"", "0", "999999", "abc", "1 ", strings.Repeat("9", 300)}
+var c11Bogus = []string{"", "0", "999999", "abc", "1 ", strings.Repeat("9", 300), strings.Repeat("h", 257), strings.Repeat("7", 4096)}
 
 type c11Handle struct {
 	s      string
@@ -336,9 +337,89 @@ func (x *c11Run_) step(st c11Step) {
 	}
 }
 
+// c11UseDuringSlowClose (request server): a handler object whose Close takes its time. Requests on the handle that
+// arrive while that Close is running name a handle that is being closed: they fail, and the object is not used
+// any more once its Close has begun.
+func c11UseDuringSlowClose(u *vfUnit, alloc bool) {
+	for _, pf := range []uint32{rfRead_, rfWrite_, rfRead_ | rfWrite_} {
+		store := vfNewStore()
+		store.Put("/slow", vfPattern(5, 0, 300))
+		entered := make(chan struct{}, 4)
+		release := make(chan struct{})
+		store.CloseHook = func(p string) {
+			entered <- struct{}{}
+			<-release
+		}
+		rs, err := vfRawConnect(vfSrvCfg{Kind: vfRS, Alloc: alloc, H: store.Handlers(vfHandlerOpt{OpenFile: true, ListAll: true})}, vfPipeOpts{}, true)
+		if err != nil {
+			u.Inconclusive("connect: %v", err)
+			return
+		}
+		label := fmt.Sprintf("RequestServer/alloc=%v/use-during-slow-Close/pflags=%#x", alloc, pf)
+		hr, err := rs.R.Phase(60*time.Second, vfPkt{Type: rfOpen, ID: 2, Path: "/slow", Pflags: pf})
+		if err != nil || len(hr) != 1 || hr[0].Type != rfHandle {
+			u.Violation("open-failed", fmt.Sprintf("%s: %v %v", label, hr, err), nil)
+			close(release)
+			rs.End(60 * time.Second)
+			return
+		}
+		h := hr[0].Handle
+		base := rs.R.Count()
+		rs.R.SendPkts(vfPkt{Type: rfClose, ID: 3, Handle: h})
+		if w, _ := vfAwait(vfGo(func() { <-entered }), 60*time.Second); w != vfDone {
+			u.Violation("close-not-forwarded", label+": CLOSE did not reach the handler object's Close", nil)
+			close(release)
+			rs.End(60 * time.Second)
+			return
+		}
+		use := vfPkt{Type: rfRead, ID: 4, Handle: h, Off: 0, Len: 50}
+		if pf == rfWrite_ {
+			use = vfPkt{Type: rfWrite, ID: 4, Handle: h, Off: 0, Data: []byte("LATE")}
+		}
+		rs.R.SendPkts(use, vfPkt{Type: rfFstat, ID: 5, Handle: h})
+		// give the server every chance to act on them while Close is still running
+		for spin := 0; spin < 3000; spin++ {
+			runtime.Gosched()
+		}
+		time.Sleep(30 * time.Millisecond)
+		close(release)
+		w, dump := rs.R.WaitCount(base+3, 60*time.Second)
+		u.Count("requests_during_a_slow_close", 2)
+		if w == vfStuck {
+			u.Violation("serve-wedged:use-during-close", label+": replies missing, process quiescent\n"+vfTrim(dump, 2000), nil)
+		}
+		for _, body := range rs.R.All()[min(base, rs.R.Count()):] {
+			p, perr := vfParse(body, true)
+			if perr != nil {
+				continue
+			}
+			if (p.ID == 4 || p.ID == 5) && !(p.Type == rfStatus && p.Code != rfOK) {
+				u.Violation("request-on-closing-handle-served", fmt.Sprintf("%s: %s, received while the Close of the handle's object was running, was answered %s", label, map[uint32]string{4: use.String(), 5: "FSTAT"}[p.ID], p), nil)
+			}
+		}
+		if msg := rs.End(60 * time.Second); msg != "" {
+			u.Violation("serve-end", label+": "+msg, nil)
+		}
+		for _, o := range store.Objs() {
+			if o.kind == "stat" {
+				continue
+			}
+			if n := o.afterClose.Load(); n > 0 {
+				u.Violation("object-used-after-close-began", fmt.Sprintf("%s: %d ReadAt/WriteAt/ListAt calls on the handler object for %s started after its Close had begun", label, n, o.path), nil)
+			}
+			if n := o.closes.Load(); n != 1 {
+				u.Violation(fmt.Sprintf("object-closed-%d-times", n), fmt.Sprintf("%s: handler object for %s closed %d times", label, o.path, n), nil)
+			}
+		}
+	}
+}
+
 func c11Run(u *vfUnit) {
 	r := u.Rng
 	e := &c11Env{kind: vfKind(u.Index % 2), alloc: (u.Index/2)%2 == 1}
+	if e.kind == vfRS {
+		c11UseDuringSlowClose(u, e.alloc)
+	}
 	if e.kind == vfOS {
 		e.dir = filepath.Join(u.TempDir(), "srv")
 	}
